@@ -21,8 +21,12 @@ pub struct T(pub u32, pub &'static [T]);
 /// Payload types the cases are instantiated with: `u32` itself, and `NodeId` (an arena of links
 /// to nodes of *another* arena: a macro that dispatches on the type of an entry must still treat
 /// such an entry as a value).
-pub trait Pay: Copy + PartialEq + std::fmt::Debug + 'static {
+pub trait Pay: Clone + PartialEq + std::fmt::Debug + 'static {
     fn of(code: u32) -> Self;
+    /// number of instances alive on this thread, for payload types that count them
+    fn alive() -> Option<i64> {
+        None
+    }
 }
 impl Pay for u32 {
     fn of(code: u32) -> u32 {
@@ -34,6 +38,36 @@ thread_local! { static FOREIGN: (Arena<u8>, Vec<NodeId>) = {
     let ids = (0..64).map(|i| a.new_node(i as u8)).collect();
     (a, ids)
 }; }
+thread_local! { static ALIVE: std::cell::Cell<i64> = const { std::cell::Cell::new(0) }; }
+/// A payload with drop glue that counts its instances: a value moved into the arena must be
+/// dropped exactly once, and not before its node goes away.
+#[derive(PartialEq, Debug)]
+pub struct Tracked(pub u32);
+impl Tracked {
+    fn born() {
+        ALIVE.with(|a| a.set(a.get() + 1));
+    }
+}
+impl Clone for Tracked {
+    fn clone(&self) -> Self {
+        Tracked::born();
+        Tracked(self.0)
+    }
+}
+impl Drop for Tracked {
+    fn drop(&mut self) {
+        ALIVE.with(|a| a.set(a.get() - 1));
+    }
+}
+impl Pay for Tracked {
+    fn of(code: u32) -> Tracked {
+        Tracked::born();
+        Tracked(code)
+    }
+    fn alive() -> Option<i64> {
+        Some(ALIVE.with(|a| a.get()))
+    }
+}
 impl Pay for NodeId {
     /// ids of a foreign arena, chosen so that they are also valid positions of the arena under test
     fn of(code: u32) -> NodeId {
@@ -130,6 +164,13 @@ pub fn check<P: Pay>(
     kids: &'static [T],
     written: u32,
 ) -> Result<(), String> {
+    // payloads with drop glue: exactly the payloads of the live nodes are alive now
+    let live_nodes = arena.iter().filter(|n| !n.is_removed()).count() as i64;
+    if let Some(alive) = P::alive() {
+        if alive != live_nodes {
+            return Err(format!("{} payload instance(s) alive but {} live node(s): a payload was dropped early / twice or leaked", alive, live_nodes));
+        }
+    }
     let log = take_log();
     let want: Vec<u32> = (0..written + 2).collect();
     if log != want {
@@ -163,7 +204,7 @@ pub fn check<P: Pay>(
     // the surroundings of a root that is a middle child are untouched
     if let Some(g) = given {
         if let Some(p) = arena[g].parent() {
-            let sibs: Vec<P> = p.children(arena).map(|c| *arena[c].get()).collect();
+            let sibs: Vec<P> = p.children(arena).map(|c| arena[c].get().clone()).collect();
             if sibs != vec![P::of(8001), P::of(9000), P::of(8003)] {
                 return Err(format!("siblings of the root changed: {:?}", sibs));
             }
